@@ -44,6 +44,9 @@ def run(check, tier):
     jobs.append(dict(fn="bad_device", timeout=t, key="bad_device"))
     jobs.append(dict(fn="bad_device__reach", timeout=30))
     jobs.append(dict(fn="bad_device_str", timeout=t * 2, key="bad_device_str"))
+    jobs += [dict(fn="bad_device_cpu_like", fixed=dict(side=sd), timeout=t * 2, key="bad_device_cpu_like") for sd in (0, 1)]
+    jobs.append(dict(fn="bad_device_cpu_index", timeout=t * 2, key="bad_device_cpu_like"))
+    jobs.append(dict(fn="bad_device_cpu_like__reach", timeout=60))
     jobs.append(dict(fn="good_device", timeout=t, key="good_device"))
     # three operations, always: set, then two update_defaults on overlapping keys (scalar and mapping defaults for one key; this
     # group found the TypeError repaired by b519c8b)
